@@ -401,6 +401,15 @@ struct V {
               }, &msg), "linearCombination(" + std::to_string(nc) +
                             " coefficients, " + std::to_string(ns) + " splines)",
               msg);
+        if (nc == ns && nc >= 1) {
+          // reversed iterator pairs: a negative count is not "at least one"
+          judge("linear-combination-reversed-range", false, attempt([&] {
+                  auto r = bspline::linearCombination(cs.end(), cs.begin(),
+                                                      ss.end(), ss.begin());
+                  (void)r;
+                }, &msg), "linearCombination(reversed ranges of " +
+                              std::to_string(nc) + ")", msg);
+        }
         judge("linear-combination-iterators", valid, attempt([&] {
                 auto r = bspline::linearCombination(cs.begin(), cs.end(),
                                                     ss.begin(), ss.end());
@@ -449,8 +458,13 @@ struct V {
       // boundary derivative orders 0..order+1 at every array position and node
       const Support<T> x(grid, 1, 5);
       const std::vector<T> y(4, mk<T>(1));
+      std::vector<size_t> derivs;
+      for (size_t d = 0; d <= order + 1; d++) derivs.push_back(d);
+      for (size_t big : {~size_t(0), ~size_t(0) / 2 + 1, (size_t)1 << 32,
+                         ((size_t)1 << 32) + 1, (size_t)256 + 1, (size_t)65536 + 1})
+        derivs.push_back(big);
       for (size_t pos = 0; pos + 1 < order; pos++)
-        for (size_t d = 0; d <= order + 1; d++)
+        for (size_t d : derivs)
           for (int node = 0; node < 2; node++) {
             std::array<Boundary<T>, order - 1> bs;
             // the other entries: distinct valid conditions
